@@ -187,6 +187,18 @@ def predict(cfg, rng, q=None):
               float(np.max(np.abs(dphi_indep(q, q.Z0) - q.d_l_d_phi * t_[:, 2]))))
     if dev > max(1e-9, 1e2 * tail) * float(np.max(np.abs(q.d_l_d_phi))):
         out.append(dict(key='axis:tangent', what='the returned axis arrays R0, Z0 are not the curve whose tangent is returned: |d r0/d phi - (dl/dphi) t| = %.3g' % dev, cfg=jsonable(cfg), rel=dev))
+    # the identities above are evaluated in the abstract Frenet basis; the RETURNED frame vectors are that basis: orthonormal, right-handed, and rotating along the
+    # returned curve with the returned curvature and torsion (Frenet-Serret, cylindrical components, FFT derivative)
+    n += 1
+    T_, N_, B_ = q.tangent_cylindrical, q.normal_cylindrical, q.binormal_cylindrical
+    def ddl_(v):
+        dv = np.stack([dphi_indep(q, v[:, c_]) for c_ in range(3)], axis=1)
+        return np.array([dv[:, 0] - v[:, 1], dv[:, 1] + v[:, 0], dv[:, 2]]).T / q.d_l_d_phi[:, None]
+    k_, t_ = q.curvature[:, None], q.torsion[:, None]
+    efs = max(float(np.max(np.abs(ddl_(T_) - k_ * N_))), float(np.max(np.abs(ddl_(N_) + k_ * T_ - t_ * B_))), float(np.max(np.abs(ddl_(B_) + t_ * N_))),
+              float(np.max(np.abs(np.cross(T_, N_) - B_))), float(np.max(np.abs(np.sum(N_ * N_, axis=1) - 1))))
+    if efs > max(1e-8, 1e2 * tail) * max(1.0, float(np.max(np.abs(q.curvature))), float(np.max(np.abs(q.torsion)))):
+        out.append(dict(key='frame:frenet-serret', what='the returned normal / binormal are not the Frenet frame of the returned curve with the returned curvature and torsion (largest defect %.3g)' % efs, cfg=jsonable(cfg), rel=efs))
     orders = ['r1'] + (['r2'] if q.order in ('r2', 'r3') else []) + (['r3'] if q.order == 'r3' else [])
     for o in orders:
         for (name, k, how) in CLAIMS[o]:
